@@ -81,6 +81,10 @@ def choices(tree: ber.Node) -> t.List[Choice]:
                     out.append((i, "junk", "uoctets"))
                 out.append((i, "junk", "app7"))
                 out.append((i, "junk", "priv10"))
+                if name == "LDAPMessage" and not (len(n.children or []) >= 2 and n.children[1].cls == ber.APPLICATION and n.children[1].num == 24):
+                    # [10] after the protocolOp is where Active Directory puts the responseName of an ExtendedResponse (the
+                    # library reads it there, by design); on any other message it is just another unrecognised element
+                    out.append((i, "junk", "ctx10"))
                 out.append((i, "junk", "app1-11"))
                 out.append((i, "junk", "many"))
                 if name == "LDAPMessage" and len(n.children or []) >= 3:
@@ -122,6 +126,8 @@ def render(tree: ber.Node, chosen: t.Sequence[Choice]) -> bytes:
                 n.children.append(ber.Node(ber.APPLICATION, False, 7, b"abc"))
             elif opt == "priv10":
                 n.children.append(ber.Node(ber.PRIVATE, False, 10, b"9.9.9"))
+            elif opt == "ctx10":
+                n.children.append(ber.Node(ber.CONTEXT, False, 10, b"1.3.6.1.4.1.1466.20037"))
             elif opt == "app1-11":
                 n.children += [ber.Node(ber.APPLICATION, False, 1, b"q"), ber.Node(ber.PRIVATE, False, 11, b"r"), ber.Node(ber.UNIVERSAL, False, 10, b"\x05"), ber.Node(ber.APPLICATION, False, 3, b"")]
             elif opt == "many":
@@ -196,7 +202,8 @@ def check_variant(m: t.Any, tree: ber.Node, chosen: t.Sequence[Choice], via_sess
         nodes = all_nodes(tree)
         where = ":" + "+".join(sorted({(nodes[c[0]].note or {}).get("name", "?") for c in chosen if c[1] in ("junk", "default")}))
     try:
-        m2, rest = K.unpack(data)
+        with K.guard(5):
+            m2, rest = K.unpack(data)
     except BaseException as e:  # noqa: BLE001
         return (f"rejected:{_cause(e)}", f"valid BER form ({kinds}{where}) rejected with {type(e).__name__}: {e}  [{data.hex()[:100]}]")
     if rest:
@@ -221,7 +228,8 @@ def check_variant(m: t.Any, tree: ber.Node, chosen: t.Sequence[Choice], via_sess
             else:
                 s.search_request()
         try:
-            got = s.receive(data1)
+            with K.guard(5):
+                got = s.receive(data1)
         except BaseException as e:  # noqa: BLE001
             return (f"session-rejected:{_cause(e)}", f"{role}.receive rejected a valid BER form ({kinds}{where}): {e}")
         if len(got) != 1 or same_message(m1, got[0]):
